@@ -30,7 +30,8 @@ structure RawTok (s : LexerState) (st : LexState) (t : Token) (st1 : LexState) :
   val : slice st.text t.lexpos (t.lexpos + t.value.length) = t.value
   lexpos : st1.lexpos = t.lexpos + t.value.length
   auto : t.auto = false
-  rule : ∃ r, FirstMatch (rulesOf s) (st.text.drop t.lexpos) r t.value.length ∧ t.type = ruleType r t.value
+  rule : ∃ r, FirstMatch (rulesOf s) (st.text.drop t.lexpos) r t.value.length ∧
+    t.type = ruleFn (afterPeriod st) r t.value
   lineno : t.lineno = st.lineno
   colno : colnoAt st t.lexpos = .ok t.colno
   nl : st1.newlineIdx = st.newlineIdx ++ nlOffsets t.value t.lexpos ∧
